@@ -150,7 +150,7 @@ def gen_read_cases(c, P):
     # sized gz member in front shifts the member so that its END falls on the boundary.
     tail_kinds = list(kinds)
     for j in (1, 2):
-        for d in range(-3, 4):
+        for d in range(-6, 4):
             end = 6 + 16384 * j + d
             m1 = gz_member_of_length(rng, end)
             if m1 is not None:
